@@ -49,7 +49,7 @@ InitState == [side |-> "client", sc |-> 0, last |-> "Init", now |-> 0,
   \* connection
   ehdr |-> FALSE, eframes |-> 0, eopens |-> 0, ecloses |-> 0, ecloseErr |-> FALSE, eeof |-> FALSE,
   phdr |-> "none", popen |-> FALSE, pclose |-> FALSE, pcloseErr |-> "", pcloseHeard |-> FALSE, peof |-> FALSE, illegal |-> FALSE, garbage |-> FALSE,
-  oblClose |-> FALSE, openRet |-> "none", closeRet |-> "none", hook |-> FALSE,
+  oblClose |-> FALSE, openRet |-> "none", closeRet |-> "none", hook |-> FALSE, tol |-> 2, timedOut |-> FALSE, panics0 |-> -1, lidle |-> -1,
   emfs |-> 512, pmfs |-> 512, echmax |-> 65535, pchmax |-> 65535, eidle |-> -1, pidle |-> -1, lastE |-> 0, lastP |-> 0, openAt |-> -1,
   ss |-> <<>>, ls |-> <<>>, pendCfg |-> <<>>, pendSess |-> <<>>]
 
@@ -92,7 +92,7 @@ EPre(s, r, l) ==
   + Chk("C12_OpenOnceFirst", (s.eframes = 0) => (r.perf = "open" /\ r.ch = 0), l, r.perf)
   + Chk("C12_NothingAfterClose", s.ecloses = 0, l, r.perf)
   + Chk("C06_WithinMaxOnWire", r.size <= (IF s.popen THEN s.pmfs ELSE 512), l, r.perf)
-  + Chk("C17_Heartbeat", ~(s.pidle > 0 /\ s.popen /\ s.eopens = 1 /\ s.ecloses = 0 /\ ~s.eeof) \/ r.t - s.lastE <= s.pidle, l, "gap")
+  + Chk("C17_Heartbeat", ~(s.pidle > 0 /\ s.popen /\ s.eopens = 1 /\ s.ecloses = 0 /\ ~s.eeof) \/ r.t - s.lastE <= s.pidle + s.tol, l, "gap")
 
 H_EHeader(s, r, l) == R([s EXCEPT !.ehdr = TRUE], Chk("C12_HeaderFirst", s.eframes = 0 /\ ~s.ehdr, l, "header"))
 
@@ -367,7 +367,7 @@ SessName(scope) == scope      \* the scope string of a session call ("s:<name>")
 LinkByName(s, name, wantSender) == LastIdx(s.ls, LAMBDA y : y.name = name /\ y.eAtt /\ y.eutSender = wantSender)
 
 H_ApiCall(s, r, l) ==
-  IF r.op \in {"open", "accept"} THEN R([s EXCEPT !.openRet = "pending"], 0)
+  IF r.op \in {"open", "accept"} THEN R([s EXCEPT !.openRet = "pending", !.lidle = IF "idle" \in DOMAIN r.args THEN r.args.idle ELSE -1], 0)
   ELSE IF r.op \in {"begin", "accept_session"} THEN R([s EXCEPT !.pendSess = Append(@, r.scope)], 0)
   ELSE IF r.op \in {"attach_receiver", "accept_link"} THEN R([s EXCEPT !.pendCfg = Append(@, [name |-> r.lname, credit |-> IF "credit" \in DOMAIN r.args THEN r.args.credit ELSE -1,
                                                                                                  autoAcc |-> IF "auto_accept" \in DOMAIN r.args THEN r.args.auto_accept ELSE FALSE])], 0)
@@ -413,13 +413,20 @@ H_ApiRet(s, r, l) ==
   IF r.op \in {"open", "accept"}
   THEN R([s EXCEPT !.openRet = IF r.res.ok THEN "ok" ELSE r.res.class], Chk("C12_OpenResult", ~r.res.ok \/ OpenShouldSucceed(s), l, ""))
   ELSE IF r.op \in {"close", "on_close"}
-  THEN R([s EXCEPT !.closeRet = IF r.res.ok THEN "ok" ELSE r.res.class],
+  THEN R([s EXCEPT !.closeRet = IF r.res.ok THEN "ok" ELSE r.res.class, !.timedOut = (@ \/ (~r.res.ok /\ r.res.idle_timeout))],
+           \* an idle time-out is reported only when nothing has arrived for (at least) the configured time
+           Chk("C17_NoEarlyTimeout", r.res.ok \/ ~r.res.idle_timeout \/ (s.lidle > 0 /\ r.t - s.lastP >= s.lidle - s.tol), l, "")
+         +
            Chk("C12_CloseResult_PeerError", ~(s.pcloseHeard /\ s.pcloseErr # "") \/ (~r.res.ok /\ r.res.cond = s.pcloseErr), l, r.res.class)
          \* a clean close (no error on either side) is reported as Ok, or -- when the peer closed first -- as the
          \* error-free notification RemoteClosed; never as an error carrying a condition
          + Chk("C12_CloseResult_Clean", ~(s.pcloseHeard /\ s.pcloseErr = "" /\ ~s.illegal /\ s.ecloses = 1 /\ ~s.ecloseErr /\ ~s.garbage)
                                         \/ r.res.ok \/ (r.res.class = "RemoteClosed" /\ r.res.cond = ""), l, r.res.class)
          + Chk("C13_TeardownWaits", ~(r.op = "close" /\ r.res.ok) \/ s.pcloseHeard \/ s.peof, l, "close"))
+  ELSE IF r.op = "begin" THEN
+       \* a begin that cannot get a channel within channel-max is refused locally with the dedicated error
+       R(s, Chk("C17_RefusedLocally", r.res.ok \/ r.res.class # "LocalChannelMaxReached" \/ Cardinality({i \in DOMAIN s.ss : LiveE(s.ss[i])}) > Min(s.echmax, s.pchmax), l, "")
+          + Chk("C17_NotRefusedEarly", ~(~r.res.ok /\ r.res.class = "LocalChannelMaxReached") \/ Cardinality({i \in DOMAIN s.ss : LiveE(s.ss[i])}) >= Min(s.echmax, s.pchmax) + 1, l, ""))
   ELSE IF r.op \in {"detach", "close_link"} THEN
        LET k == LastIdx(s.ls, LAMBDA y : y.name = r.lname /\ y.eAtt) IN
        IF k = 0 THEN R(s, 0) ELSE
@@ -471,7 +478,7 @@ H_Quiesce(s, r, l) ==
                     who == IF y.blockedBy = "window" THEN "C07_Drain" ELSE IF y.blockedBy = "credit" THEN "C08_Wake"
                            ELSE IF winSlack <= credSlack THEN "C07_Drain" ELSE "C08_Wake"
                 IN Fail(who, l, IF Stuck(s, k) = "stuck" THEN "dev_ok" ELSE "dev_closed")
-  IN R([s EXCEPT !.ls = ls2],
+  IN R([s EXCEPT !.ls = ls2, !.panics0 = IF @ < 0 THEN r.panics ELSE @],
          Chk("C12_CloseReply_Q", ~(s.oblClose /\ ~s.eeof), l, "")
        + Chk("C12_IllegalClosed_Q", ~s.illegal \/ s.ecloses > 0 \/ s.eeof \/ ~Listening(s), l, "")
        + Chk("C12_OpenReturns_Q", ~(OpenShouldSucceed(s) /\ s.openRet = "pending" /\ ~s.pclose /\ ~s.peof), l, "")
@@ -482,7 +489,11 @@ H_Quiesce(s, r, l) ==
        + Chk("C02_Echo_Q", \A k \in DOMAIN s.ls : ~(ConnUp(s) /\ s.ls[k].eutSender /\ s.ls[k].oblEcho # {} /\ LinkLiveE(s.ls[k]) /\ ~s.ls[k].pDet
                                                      /\ SessByE(s, s.ls[k].ech) > 0 /\ LiveE(s.ss[SessByE(s, s.ls[k].ech)]) /\ ~s.ss[SessByE(s, s.ls[k].ech)].pEnded), l, "")
        + Chk("C08_Echo_Q", \A k \in DOMAIN s.ls : ~(up /\ s.ls[k].eutSender /\ s.ls[k].echoOwed /\ LinkLiveE(s.ls[k]) /\ ~s.ls[k].pDet), l, "")
-       + Chk("C17_Heartbeat", ~(s.pidle > 0 /\ ConnUp(s)) \/ r.t - s.lastE <= s.pidle, l, "quiesce")
+       \* local idle time-out: once nothing has arrived for that long (plus the clock granularity) the transport is torn down
+       + Chk("C17_LocalTimeoutFires", ~(s.lidle > 0 /\ s.popen /\ s.eopens = 1 /\ s.phdr = "amqp" /\ ~s.garbage /\ r.t - Max(s.lastP, s.openAt) > s.lidle + 2 * s.tol + 2) \/ s.eeof \/ s.ecloses > 0, l, "")
+       + Chk("C17_TimeoutReported", ~(s.timedOut) \/ s.eeof, l, "")
+       + Chk("C15_NoPanic", s.panics0 < 0 \/ r.panics = s.panics0, l, "")
+       + Chk("C17_Heartbeat", ~(s.pidle > 0 /\ ConnUp(s)) \/ r.t - s.lastE <= s.pidle + s.tol, l, "quiesce")
        \* automatic credit: with nothing held back by the application the sender must have credit to continue
        + Chk("C09_Replenished_Q", \A k \in DOMAIN s.ls : ~(ConnUp(s) /\ ~s.ls[k].eutSender /\ s.ls[k].creditMode > 0 /\ LinkLiveE(s.ls[k]) /\ s.ls[k].pAtt /\ ~s.ls[k].pDet
                                                             /\ s.ls[k].held = 0 /\ s.ls[k].inq = <<>> /\ ~s.ls[k].pInDel /\ ~s.ls[k].broken
@@ -508,6 +519,7 @@ Step(s, r, l) ==
       [] r.ev = "ApiRet" -> H_ApiRet(s, r, l)
       [] r.ev = "Quiesce" -> H_Quiesce(s, r, l)
       [] r.ev = "Hook" -> R([s EXCEPT !.hook = (r.op = "arm")], 0)
+      [] r.ev = "Advance" -> R([s EXCEPT !.tol = Max(@, r.step + 2)], 0)
       [] OTHER -> R(s, 0)
   IN R([res.s EXCEPT !.last = r.ev, !.now = r.t], res.f)
 =============================================================================
